@@ -585,18 +585,10 @@ func ruleERR(c *Ctx) []Obligation {
 				if is, ok := pm[par].(*ast.IfStmt); ok && is.Init == par {
 					guard = is
 				} else {
-					var list []ast.Stmt
-					switch blk := pm[par].(type) {
-					case *ast.BlockStmt:
-						list = blk.List
-					case *ast.CaseClause:
-						list = blk.Body
-					}
-					for i, st := range list {
-						if st == ast.Stmt(par) && i+1 < len(list) {
-							guard, _ = list[i+1].(*ast.IfStmt)
-						}
-					}
+					// the statement control reaches next: the following sibling, or — when the
+					// assignment ends a case / if body — the statement after the enclosing
+					// switch / if (one test shared by all arms)
+					guard, _ = nextStmtAfter(pm, par).(*ast.IfStmt)
 				}
 				if guard == nil {
 					o.Verdict, o.Detail = VIOL, "the error is not tested immediately after the call"
@@ -633,6 +625,73 @@ func ruleERR(c *Ctx) []Obligation {
 		})
 	})
 	return obs
+}
+
+// nextStmtAfter returns the statement that control reaches after st completes
+// normally, in structured code: the next sibling, or the statement following
+// the enclosing if / switch when st is the last statement of one of its arms.
+// nil when st ends a loop body or the function.
+func nextStmtAfter(pm parentMap, st ast.Stmt) ast.Stmt {
+	var cur ast.Node = st
+	for {
+		parent := pm[cur]
+		var list []ast.Stmt
+		switch p := parent.(type) {
+		case *ast.BlockStmt:
+			list = p.List
+		case *ast.CaseClause:
+			list = p.Body
+		case *ast.CommClause:
+			list = p.Body
+		}
+		if list != nil {
+			for i, s := range list {
+				if ast.Node(s) == cur {
+					if i+1 < len(list) {
+						return list[i+1]
+					}
+				}
+			}
+			// last statement of the list: continue after the construct that owns the list
+			switch p := parent.(type) {
+			case *ast.BlockStmt:
+				switch gp := pm[p].(type) {
+				case *ast.IfStmt:
+					cur = gp
+					// an else-if chain: climb to the outermost if
+					for {
+						if outer, ok := pm[cur].(*ast.IfStmt); ok && outer.Else == cur {
+							cur = outer
+							continue
+						}
+						break
+					}
+					continue
+				case *ast.SwitchStmt, *ast.TypeSwitchStmt, *ast.SelectStmt:
+					cur = gp
+					continue
+				case *ast.BlockStmt, *ast.CaseClause, *ast.CommClause:
+					cur = p
+					continue
+				default:
+					return nil // loop body, function body, function literal
+				}
+			case *ast.CaseClause, *ast.CommClause:
+				// the clause's owner is the body block of the switch
+				if blk, ok := pm[p].(*ast.BlockStmt); ok {
+					cur = blk
+					// falls to the BlockStmt handling on the next iteration via its parent
+					switch gp := pm[blk].(type) {
+					case *ast.SwitchStmt, *ast.TypeSwitchStmt, *ast.SelectStmt:
+						cur = gp
+						continue
+					}
+				}
+				return nil
+			}
+		}
+		return nil
+	}
 }
 
 func ruleNILMOD(c *Ctx) []Obligation {
